@@ -442,4 +442,10 @@ MUTANTS = [
     M("B8-2-no-ascii", ["C09"], (CP, "        if !value.is_ascii() {", "        if false {"), base="B8-2"),
     M("benign-c01-flush-hash-rev", ["C01", "C07"], (MH, "    for card in cards.iter() {\n        if card.suit() == suit {", "    for card in cards.iter().rev() {\n        if card.suit() == suit {"), benign=True),
     M("c01-flush-hash-skip", ["C01"], (MH, "    for card in cards.iter() {\n        if card.suit() == suit {", "    for card in cards.iter().skip(1) {\n        if card.suit() == suit {")),
+    M("benign-E5-2-bitmask-used-set", ["C02", "C04", "C08", "C11", "C15"], base="E5-2", benign=True),
+    M("E5-2-mask-one-hole", ["C02"], (FE, "            let hole_cards = u64::from(&entry.0[0]) | u64::from(&entry.0[1]);", "            let hole_cards = u64::from(&entry.0[0]) | u64::from(&entry.0[0]);"), base="E5-2"),
+    M("E5-2-mask-no-river", ["C02"], (FE, "        self.current_used_cards |= u64::from(&turn) | u64::from(&river);", "        self.current_used_cards |= u64::from(&turn);"), base="E5-2"),
+    M("E5-2-mask-no-reset", ["C02"], (FE, "        self.current_used_cards = 0;", ""), base="E5-2"),
+    M("E5-2-mask-eq", ["C02"], (FE, "            if self.current_used_cards & hole_cards != 0 {", "            if self.current_used_cards & hole_cards == hole_cards {"), base="E5-2"),
+    M("E5-2-mask-not-recorded", ["C02"], (FE, "            self.current_used_cards |= hole_cards;", ""), base="E5-2"),
 ]
